@@ -1725,26 +1725,29 @@ class ReactionSystem:
         values, config, original = as_material_array(
             material, self._basis, self._phases, self.chemicals
         )
-        preconverted_material = values if original else values.copy()
-        reactions = self.reactions
-        for i, rxn in enumerate(reactions):
-            if i == index: break
-            rxn(preconverted_material)
-        reaction = reactions[index]
-        if subindex is not None:
-            if isinstance(reaction, SeriesReaction):
-                reactions = reaction
-                for i, rxn in enumerate(reactions):
-                    if i == subindex: break
-                    rxn(preconverted_material)
-            reaction = reaction[subindex]
-            return reaction.X * preconverted_material[reaction._reactant_index]
-        elif isinstance(reaction, SeriesReaction):
-            raise ValueError('must pass subindex if the index refers to a SeriesReaction object')
-        elif isinstance(reaction, ParallelReaction):
-            return (reaction.X * preconverted_material[reaction._reactant_index]).sum()
-        else:
-            return reaction.X * preconverted_material[reaction._reactant_index]
+        try:
+            preconverted_material = values.copy() if original is None else values
+            reactions = self.reactions
+            for i, rxn in enumerate(reactions):
+                if i == index: break
+                rxn(preconverted_material)
+            reaction = reactions[index]
+            if subindex is not None:
+                if isinstance(reaction, SeriesReaction):
+                    reactions = reaction
+                    for i, rxn in enumerate(reactions):
+                        if i == subindex: break
+                        rxn(preconverted_material)
+                reaction = reaction[subindex]
+                return reaction.X * preconverted_material[reaction._reactant_index]
+            elif isinstance(reaction, SeriesReaction):
+                raise ValueError('must pass subindex if the index refers to a SeriesReaction object')
+            elif isinstance(reaction, ParallelReaction):
+                return (reaction.X * preconverted_material[reaction._reactant_index]).sum()
+            else:
+                return reaction.X * preconverted_material[reaction._reactant_index]
+        finally:
+            if config: material._imol.reset_chemicals(*config)
         
         
     def __repr__(self):
